@@ -112,6 +112,7 @@ func (ctx *checkerContext) inConstructor(pkgPath string, typeName string) bool {
 // @immutable
 type receiverInfo struct {
 	name     string
+	obj      types.Object // the receiver variable itself
 	typeName string
 	pkgPath  string
 }
@@ -140,6 +141,7 @@ func extractReceiverInfo(pass *analysis.Pass, funcDecl *ast.FuncDecl) *receiverI
 
 	return &receiverInfo{
 		name:     recvName,
+		obj:      pass.TypesInfo.Defs[recvField.Names[0]],
 		typeName: typeInfo.TypeName,
 		pkgPath:  typeInfo.PkgPath,
 	}
@@ -381,7 +383,8 @@ func checkReceiverIncDec(
 	}
 
 	// Check if the identifier is the receiver
-	if ident.Name != ctx.currentReceiver.name {
+	// (not another variable that shadows the receiver's name)
+	if ident.Name != ctx.currentReceiver.name || ctx.pass.TypesInfo.Uses[ident] != ctx.currentReceiver.obj {
 		return nil
 	}
 
@@ -500,7 +503,8 @@ func checkReceiverReassignment(
 	}
 
 	// Check if the identifier is the receiver
-	if ident.Name != ctx.currentReceiver.name {
+	// (not another variable that shadows the receiver's name)
+	if ident.Name != ctx.currentReceiver.name || ctx.pass.TypesInfo.Uses[ident] != ctx.currentReceiver.obj {
 		return nil
 	}
 
